@@ -16,6 +16,17 @@ type scoreCase3 struct {
 	Level   int    `json:"decoder_level"` // 0 base, 1 temporal, 2 environmental
 	NilRecv bool   `json:"nil_receiver"`
 	Input   string `json:"input"`
+	// PreQuery: the decoder comes from the constructor and every observer of it is called once
+	// before its single Decode; the decoded vector's scores must not depend on that.
+	PreQuery bool `json:"queried_before_decode,omitempty"`
+}
+
+// decodeCase3 decodes the case's input the way the case says.
+func decodeCase3(level spec.Level, c scoreCase3) (obj3, error) {
+	if c.PreQuery && !c.NilRecv {
+		return decode3Pre(level, c.Input)
+	}
+	return decode3(level, c.Input, c.NilRecv)
 }
 
 var checkC01 = register("C01/decode", func(c scoreCase3) string {
@@ -24,7 +35,7 @@ var checkC01 = register("C01/decode", func(c scoreCase3) string {
 	if !ok {
 		return "" // not a well-formed vector of this level: outside C01's quantifier
 	}
-	o, err := decode3(level, c.Input, c.NilRecv)
+	o, err := decodeCase3(level, c)
 	if err != nil || o.isNil() {
 		return fmt.Sprintf("well-formed vector rejected by the %v decoder: %v", level, err)
 	}
@@ -131,7 +142,7 @@ func TestC01(t *testing.T) {
 				if v >= 0 {
 					vec = gen.DecorateV3(canon, lv, spec.Base, mix(uint64(seed), uint64(i*1000+int(lv)*100+v)))
 				}
-				cs := scoreCase3{Level: int(lv), NilRecv: v%2 == 0, Input: vec.String()}
+				cs := scoreCase3{Level: int(lv), NilRecv: v%2 == 0, PreQuery: (i+v)%4 == 1, Input: vec.String()}
 				ev++
 				if isNT {
 					nt++
@@ -157,7 +168,7 @@ func TestC01(t *testing.T) {
 	c.rapidStage("rapid", pick(64000, 1000000), func(rt *rapid.T) {
 		lv := gen.Level().Draw(rt, "decoder")
 		vec := gen.ValidV3(lv).Draw(rt, "vector")
-		cs := scoreCase3{Level: int(lv), NilRecv: rapid.Bool().Draw(rt, "nilrecv"), Input: vec.String()}
+		cs := scoreCase3{Level: int(lv), NilRecv: rapid.Bool().Draw(rt, "nilrecv"), PreQuery: rapid.IntRange(0, 3).Draw(rt, "prequery") == 0, Input: vec.String()}
 		isNT, cl := c01Labels(spec.IdxV3(vec))
 		if vec.String() != spec.CanonV3(vec, lv) {
 			cl = append(cl, "rapid:non-canonical")
